@@ -2,16 +2,60 @@ from checks_common import *  # noqa: F401,F403
 
 CHECK = {
     "harness": "c20_bounding.cpp",
+    # Interval.hpp and EigenContainers.hpp are header only
     "srcs": BBOX + ["src/pointset/algorithms/PointSetPreconditioner.cpp"],
     "flavours": ["asan"],
     "quick": {"shards": 4, "timeout": 600},
     "thorough": {"shards": 16, "timeout": 3600},
-    "required_categories": [],
-    "required_oracles": [],
-    "required_counters": [],
-    "rule": "tbd",
-    "level_text": "tbd",
+    "required_categories": [
+        "scalar_float", "scalar_double",
+        "aabb_from_interval", "aabb_inside_dyadic", "aabb_inside_generic",
+        "aabb_face_point", "aabb_edge_point", "aabb_corner_point", "aabb_zero_extent",
+        "obb_inside_dyadic_axis_rotation", "obb_inside_generic",
+        "obb_face_point", "obb_edge_point", "obb_corner_point", "obb_zero_extent", "obb_to_aabb",
+        "rotation_mode_0", "rotation_mode_1", "rotation_mode_2", "rotation_mode_3", "rotation_mode_4",
+        "interval_union", "interval_dim1", "interval_dim2", "interval_dim3",
+        "pointset_preconditioner", "set_all_negative", "set_all_positive", "set_fixed_mixed_octant",
+        "set_straddling_origin", "set_nonpositive_with_zeros", "set_single_point", "set_500_or_more_points",
+        "type_Vector2f", "type_Vector2d", "type_Vector3f", "type_Vector3d",
+        "type_HomogeneousCoordinates2f", "type_HomogeneousCoordinates2d",
+        "type_HomogeneousCoordinates3f", "type_HomogeneousCoordinates3d",
+        "container_of_arrays_min_max_mean", "container_of_matrices_mean",
+        "container_VectorOfEigenVector", "container_DequeOfEigenVector", "container_ListOfEigenVector"],
+    "required_oracles": [
+        "aabb.from_interval.exact", "aabb.from_interval.rel", "aabb.to_interval.exact", "aabb.inside.exact", "aabb.inside.generic",
+        "obb.inside.exact", "obb.inside.generic",
+        "obb2aabb.corners_enclosed", "obb2aabb.faces_touched", "obb2aabb.point_of_obb_inside",
+        "interval.union_is_hull", "interval.inside_closed",
+        "pointset.min_is_true_minimum", "pointset.max_is_true_maximum", "pointset.mean_vs_centroid",
+        "pointset.scale_times_largest_side",
+        "container.min_is_true_minimum", "container.max_is_true_maximum", "container.mean_of_arrays",
+        "container.mean_of_matrices"],
+    "required_counters": ["aabb_exact_on_boundary_checked", "obb_exact_on_boundary_checked",
+                          "interval_inside_on_boundary_checked", "aabb_inside_via_interval_ctor",
+                          "preconditioner_recomputed_on_used_object"],
+    "rule": "case = one of {box built from an interval; axis-aligned containment on a dyadic grid (points on faces, edges, "
+            "corners, zero extents, one-ulp neighbours of the faces) or with random operands and offsets of 0.5..1e5 ulps from a "
+            "face; oriented containment with exact signed-permutation rotations on the grid or with random / multiple-of-45-deg / "
+            "tiny-angle rotations; enclosing axis-aligned box of an oriented box; union of 2..5 intervals in 1D/2D/3D sharing end "
+            "points, with closed-containment queries on and one ulp off the hull; PointSetPreconditioner over the eight point types, "
+            "fresh or re-used object, 1..1000 points all-negative / all-positive / fixed mixed octant / straddling / with exact "
+            "zeros, clustered far from the origin, identical points, one constant coordinate; min/max/mean of vector/deque/list "
+            "of Eigen arrays and mean of Eigen matrices}, float and double, 2D and 3D; non-trivial = everything except double 2D "
+            "axis-aligned containment of a point well away from every face (what the unit test samples)",
+    "level_text": "exploration: the real bounding-box, interval, container and preconditioner code is executed on 2e5 (quick) / "
+                  "5e7 (thorough) generated cases; each answer is compared with the definition evaluated in long double on the "
+                  "same operands (brute force over corners / exhaustive scan of the set); containment verdicts are required "
+                  "exactly where every intermediate is representable and outside a few-ulp ambiguity band otherwise (skips "
+                  "counted); ASan+UBSan and the library's asserts watch the same executions",
     "level_note": ASAN_NOTE,
-    "technique": "tbd",
-    "assumptions": [],
+    "technique": "runtime monitoring: sanitizer build + long-double definitional oracles (brute-force corners, exhaustive "
+                 "min/max/mean) over generated boxes, rotations, intervals and point sets",
+    "assumptions": ["half extents are non-negative and interval lower <= upper (the documented preconditions; the constructors assert them)",
+                    "rotations are proper (det +1) and orthogonal to within the rounding of their entries",
+                    "homogeneous points carry w == 1; the extrema/mean are compared on all stored components",
+                    "magnitudes stay within 1e-3..1e6 so that no overflow/underflow enters the extents",
+                    "a zero-size point set (largest side 0) is not asked for a scale (infinite accepted, counted)",
+                    "long double (x87 80-bit) evaluation of the definitions is the reference",
+                    "g++ 12 ASan+UBSan runtime; asserts live (no -DNDEBUG)"],
 }
